@@ -310,7 +310,9 @@ int main(int argc, char** argv)
 				int ncalls = 60;
 				for(int cidx = 0; cidx < ncalls; cidx++)
 				{
-					int dim = (int)h.range(1, 4), overload = (int)h.range(0, 2);
+					// (each sequence stays with one spelling: a counter that only some overloads reset must not be helped by the others)
+					int dim = (int)h.range(1, 4), overload = sq % 3;
+					h.range(0, 2);
 					std::vector<double> c(dim), lam(dim), start(dim), deltas(dim);
 					for(int k = 0; k < dim; k++)
 					{
